@@ -10,7 +10,7 @@ def capDelete : String := "can_delete"
 def capEdit : String := "can_edit"
 def capRead : String := "can_read"
 def coreNames : List String := ["SOP", "LongTermMemory"]
-def roleAdmin : String := "admin"
+def roleAdmin : String := "Admin"
 def roleGuest : String := "Guest"
 def roleUser : String := "User"
 def visPrivate : String := "private"
